@@ -22,3 +22,19 @@ def concrete_repr(module):
     def repr(o):            # noqa: A001
         return R(type(o).__repr__(o))       # not builtins.repr: CrossHair may short-circuit it into an arbitrary str
     module.repr = repr
+
+
+import contextlib
+
+
+def untraced():
+    """After every symbolic input of an obligation has been realised (a finite, solver-driven case split), the
+    rest of the run depends on concrete values only; executing it outside CrossHair's tracer is the real
+    CPython semantics at native speed (and free of interception artefacts such as ShellMutableSet)."""
+    try:
+        from crosshair.tracers import NoTracing, is_tracing
+        if is_tracing():
+            return NoTracing()
+    except Exception:
+        pass
+    return contextlib.nullcontext()
